@@ -6,8 +6,11 @@ import (
 	"errors"
 	"fmt"
 	"io"
+	"runtime"
 	"slices"
+	"strconv"
 	"strings"
+	"sync/atomic"
 	"testing"
 	"testing/cryptotest"
 	"testing/synctest"
@@ -45,6 +48,12 @@ type HStep struct {
 	// two parts; between them the caller's read deadline expires (a timeout
 	// error from the transport), the caller extends it and reads on.
 	SplitAt int `json:"split_at,omitempty"`
+	// DebugPark k > 0 (backend records, concurrent histories, Write of one record,
+	// next step a client record other than a hello): the Write is held inside
+	// the k-th call the library makes to the caller's debug function during it
+	// (a logger that blocks), the client's next record is read by the pump
+	// meanwhile, then the Write goes on.
+	DebugPark int `json:"debug_park,omitempty"`
 	// SlowReturn (backend records, concurrent histories, first record of a
 	// Write): the transport has delivered the record but its Write only returns
 	// after the client's next record has been read by the pump.
@@ -268,6 +277,20 @@ var hello2Alerts = map[string][]int{
 // scripted transport on one goroutine, or concurrently over a simulated link
 // with a reader goroutine parked inside Conn.Read (as in a real proxy, where
 // the HelloRetryRequest passes through Write while Read is already blocked).
+// errParked: the write is held inside the library (see HStep.DebugPark).
+var errParked = errors.New("harness: write parked in a debug call")
+
+// goid is the id of the calling goroutine.
+func goid() int64 {
+	var b [64]byte
+	f := strings.Fields(string(b[:runtime.Stack(b[:], false)]))
+	if len(f) < 2 {
+		return -1
+	}
+	n, _ := strconv.ParseInt(f[1], 10, 64)
+	return n
+}
+
 type histIO struct {
 	start  func() (first []byte, accepted bool, err error)
 	feed   func(rec []byte) (got []byte, err error)
@@ -284,6 +307,9 @@ type histIO struct {
 	feedSplit func(rec []byte, k int) (before, after []byte, err error)
 	// slow (concurrent histories only): the next write returns late, see HStep.SlowReturn.
 	slow func()
+	// parkInDebug (concurrent histories only): the next write is held in its
+	// k-th debug call; write then returns errParked if it got that far.
+	parkInDebug func(k int)
 	// settle waits for a late write and reports its result.
 	settle func() (n int, err error, was bool)
 }
@@ -394,6 +420,19 @@ func concIO(w *simnet.World, b *built) *histIO {
 	var lateN int
 	var lateErr error
 	var release chan struct{}
+	dbgAt, parkedLen := 0, 0
+	var dbgG atomic.Int64
+	var dbgReached chan struct{}
+	dbgCnt := 0
+	dbgHook := func(format string, a ...any) {
+		_ = fmt.Sprintf(format, a...)
+		if g := dbgG.Load(); g != 0 && goid() == g {
+			if dbgCnt++; dbgCnt == dbgAt {
+				close(dbgReached)
+				<-release
+			}
+		}
+	}
 	settle := func() (int, error, bool) {
 		if late == nil {
 			return 0, nil, false
@@ -402,14 +441,25 @@ func concIO(w *simnet.World, b *built) *histIO {
 		<-late
 		late = nil
 		fc.WriteHook = nil
+		if parkedLen > 0 && lateErr == nil {
+			buf := make([]byte, parkedLen)
+			cc.SetReadDeadline(time.Now().Add(time.Second))
+			k, _ := io.ReadFull(cc, buf)
+			cc.SetReadDeadline(time.Time{})
+			got = append(got, buf[:k]...)
+		}
+		parkedLen = 0
 		return lateN, lateErr, true
 	}
 	return &histIO{pk: pk,
-		slow:   func() { slowNext = true },
-		settle: settle,
+		slow:        func() { slowNext = true },
+		parkInDebug: func(k int) { dbgAt = k },
+		settle:      settle,
 		start: func() (first []byte, accepted bool, err error) {
 			cc.Write(b.outerRec)
-			if p, m, s := core.Guard(func() { conn, err = ech.NewConn(context.Background(), fc, keyOptions(b.keys)...) }); p {
+			if p, m, s := core.Guard(func() {
+				conn, err = ech.NewConn(context.Background(), fc, append(keyOptions(b.keys), ech.WithDebug(dbgHook))...)
+			}); p {
 				*pk = s + ": " + normMsg(m)
 			}
 			if *pk != "" || err != nil {
@@ -458,6 +508,36 @@ func concIO(w *simnet.World, b *built) *histIO {
 			return r.b, r.err
 		},
 		write: func(rec []byte) (n int, err error) {
+			if dbgAt > 0 {
+				dbgReached, dbgCnt = make(chan struct{}), 0
+				release = make(chan struct{})
+				late = make(chan struct{})
+				go func(done chan struct{}) {
+					defer close(done)
+					dbgG.Store(goid())
+					defer dbgG.Store(0)
+					if p, m, s := core.Guard(func() { lateN, lateErr = conn.Write(rec) }); p {
+						*pk = s + ": " + normMsg(m)
+					}
+				}(late)
+				select {
+				case <-dbgReached:
+					// held inside the library's debug call: nothing is with the client yet
+					parkedLen = len(rec)
+					return len(rec), errParked
+				case <-late: // the Write made fewer debug calls than that
+					late, dbgAt = nil, 0
+					n, err = lateN, lateErr
+					if err == nil {
+						buf := make([]byte, len(rec))
+						cc.SetReadDeadline(time.Now().Add(time.Second))
+						k, _ := io.ReadFull(cc, buf)
+						cc.SetReadDeadline(time.Time{})
+						got = append(got, buf[:k]...)
+					}
+					return n, err
+				}
+			}
 			if slowNext {
 				slowNext = false
 				reached := make(chan struct{})
@@ -627,6 +707,7 @@ func runHistory(prop string, seed uint64, p *HistoryPlan, b *built, io_ *histIO,
 	spillFor, spillLen := -1, 0
 	var expectPrefix []byte
 	spillOut := 0
+	var parkedW []byte // a backend Write that is held inside the library
 	backendRec := func(i int, kind string) []byte {
 		switch kind {
 		case "hrr":
@@ -710,6 +791,10 @@ func runHistory(prop string, seed uint64, p *HistoryPlan, b *built, io_ *histIO,
 					pendingW = nil
 					goto flushed
 				}
+				if st.DebugPark > 0 && p.Concurrent && io_.parkInDebug != nil && len(pendingW) == len(rec) && !slowFirst &&
+					i+1 < len(p.Steps) && p.Steps[i+1].Side == "c" && !strings.HasPrefix(p.Steps[i+1].Kind, "hello2") {
+					io_.parkInDebug(st.DebugPark)
+				}
 				var spill []byte
 				if st.Spill > 0 && !p.Concurrent {
 					for j := i + 1; j < len(p.Steps); j++ {
@@ -723,6 +808,12 @@ func runHistory(prop string, seed uint64, p *HistoryPlan, b *built, io_ *histIO,
 					}
 				}
 				wn, werr := io_.write(append(append([]byte(nil), pendingW...), spill...))
+				if werr == errParked {
+					parkedW = append([]byte(nil), pendingW...)
+					res.Probe("backend_write_held_in_debug_call")
+					pendingW = nil
+					goto flushed
+				}
 				if *io_.pk != "" {
 					fail("panic", *io_.pk, "step %d: Write %s", i, st.Kind)
 					break
@@ -834,9 +925,18 @@ func runHistory(prop string, seed uint64, p *HistoryPlan, b *built, io_ *histIO,
 		}
 		got, rerr := io_.feed(rec)
 		if io_.settle != nil {
-			if n, err, was := io_.settle(); was && err != nil && rerr == nil {
+			n, err, was := io_.settle()
+			if was && err != nil && rerr == nil {
 				fail("history", "Conn.Write of a backend record failed (late return)", "step %d: n=%d err=%v", i, n, err)
 				break
+			}
+			if was && parkedW != nil {
+				if fwd := io_.out()[outLen:]; err == nil && !bytes.Equal(fwd, parkedW) {
+					fail("history", "backend record not forwarded unchanged", "step %d: the Write that was held in a debug call delivered %d octets, the record has %d", i, len(fwd), len(parkedW))
+					break
+				}
+				outLen = len(io_.out())
+				parkedW = nil
 			}
 		}
 		if *io_.pk != "" {
@@ -906,6 +1006,9 @@ func genC06(seed uint64, idx int) *Plan {
 				st.Kind = "hrr"
 			}
 			st.SlowReturn = h.Concurrent && r.IntN(2) == 0
+			if h.Concurrent && !st.SlowReturn && r.IntN(2) == 0 {
+				st.Join, st.DebugPark = false, 1+r.IntN(3)
+			}
 			if !h.Concurrent && r.IntN(4) == 0 {
 				st.WSplit = 1 + r.IntN(1<<16)
 			} else if !h.Concurrent && r.IntN(5) == 0 {
@@ -918,6 +1021,11 @@ func genC06(seed uint64, idx int) *Plan {
 			}
 		}
 		h.Steps = append(h.Steps, st)
+		if st.Side == "b" && st.DebugPark > 0 && st.Kind == "hrr" {
+			// what the pump reads while that Write is held: the client's
+			// change_cipher_spec (it may come at any time)
+			h.Steps = append(h.Steps, HStep{Side: "c", Kind: "ccs"})
+		}
 	}
 	return &Plan{Kind: "history", Seed: seed, History: h}
 }
